@@ -153,3 +153,83 @@ pub fn damaged_graph(kind: u8) -> Vec<u8> {
     }
 }
 
+
+// ---------------------------------------------------------------------------------------------
+// other key files
+// ---------------------------------------------------------------------------------------------
+
+fn zkey_section(zkey: &[u8], id: u32) -> Option<(usize, usize)> {
+    let n = u32::from_le_bytes(zkey[8..12].try_into().ok()?);
+    let mut pos = 12usize;
+    for _ in 0..n {
+        let sid = u32::from_le_bytes(zkey[pos..pos + 4].try_into().ok()?);
+        let len = u64::from_le_bytes(zkey[pos + 4..pos + 12].try_into().ok()?) as usize;
+        pos += 12;
+        if sid == id {
+            return Some((pos, len));
+        }
+        pos += len;
+    }
+    None
+}
+
+/// A second *valid* key for the same circuit, as another phase-2 contribution would give: delta
+/// halved, the L and H queries doubled (the snarkjs key file stores coordinates in Montgomery form,
+/// little endian). Proofs made with it verify under its own verification key and not under the
+/// shipped one, and the other way round.
+pub fn rescaled_zkey() -> Result<&'static Vec<u8>, String> {
+    use ark_bn254::{Fq, G1Affine, G2Affine};
+    use ark_ec::{AffineRepr, CurveGroup};
+    use ark_ff::{BigInteger, Field};
+    static K: std::sync::OnceLock<Result<Vec<u8>, String>> = std::sync::OnceLock::new();
+    K.get_or_init(|| {
+        let fq = |v: &Fq| (v.0).to_bytes_le();
+        let g1 = |p: &G1Affine| -> Vec<u8> {
+            if p.is_zero() {
+                return vec![0u8; 64];
+            }
+            let mut o = fq(&p.x);
+            o.extend(fq(&p.y));
+            o
+        };
+        let g2 = |p: &G2Affine| -> Vec<u8> {
+            if p.is_zero() {
+                return vec![0u8; 128];
+            }
+            let mut o = fq(&p.x.c0);
+            o.extend(fq(&p.x.c1));
+            o.extend(fq(&p.y.c0));
+            o.extend(fq(&p.y.c1));
+            o
+        };
+        let src = rln::circuit::ZKEY_BYTES;
+        let (pk, _) = rln::circuit::zkey_from_raw(src).map_err(|e| e.to_string())?;
+        let mut out = src.to_vec();
+        let inv2 = Fr::from(2u64).inverse().unwrap();
+        let d1: G1Affine = (pk.delta_g1 * inv2).into_affine();
+        let d2: G2Affine = (pk.vk.delta_g2 * inv2).into_affine();
+        let (h, hlen) = zkey_section(&out, 2).ok_or("no header section")?;
+        if hlen != 84 + 64 + 64 + 128 + 128 + 64 + 128 {
+            return Err(format!("unexpected header length {hlen}"));
+        }
+        let off = h + 84 + 64 + 64 + 128 + 128;
+        if out[off..off + 64] != g1(&pk.delta_g1)[..] || out[off + 64..off + 192] != g2(&pk.vk.delta_g2)[..] {
+            return Err("delta not found at the documented header offset".into());
+        }
+        out[off..off + 64].copy_from_slice(&g1(&d1));
+        out[off + 64..off + 192].copy_from_slice(&g2(&d2));
+        for (id, query) in [(8u32, &pk.l_query), (9u32, &pk.h_query)] {
+            let (p, len) = zkey_section(&out, id).ok_or("no query section")?;
+            if len != 64 * query.len() || out[p..p + 64] != g1(&query[0])[..] {
+                return Err(format!("query section {id} does not match the parsed key"));
+            }
+            for (i, q) in query.iter().enumerate() {
+                let doubled: G1Affine = (q.into_group() + q.into_group()).into_affine();
+                out[p + 64 * i..p + 64 * (i + 1)].copy_from_slice(&g1(&doubled));
+            }
+        }
+        Ok(out)
+    })
+    .as_ref()
+    .map_err(|e| e.clone())
+}
